@@ -31,7 +31,7 @@ type budgetYielder struct {
 // heapGuardBytes bounds the memory a generated program may make the evaluator allocate (a loop doubling a string
 // reaches gigabytes within a small yield budget; the harness has no other memory limit). Exceeding it counts as an
 // exhausted budget: the run is stopped and skipped, nothing is compared.
-const heapGuardBytes = 3 << 30
+const heapGuardBytes = 256 << 20
 
 var heapSample = []metrics.Sample{{Name: "/memory/classes/heap/objects:bytes"}}
 
